@@ -422,6 +422,16 @@ def assume_env(env, c, truth):
 
 
 # -------------------------------------------------------------- evaluator
+class LocalFunc:
+    """a function defined inside the function being evaluated (closure over the live environment)."""
+
+    def __init__(self, node, env, fi):
+        self.node, self.env, self.fi = node, env, fi
+
+    def __repr__(self):
+        return f'localfunc:{self.node.name}'
+
+
 class Aborted(Exception):
     """An inlined callee raises unconditionally: the calling path ends."""
 
@@ -796,7 +806,7 @@ class Evaluator:
         if isinstance(st, (ast.Pass, ast.FunctionDef, ast.Global, ast.Nonlocal, ast.Assert,
                            ast.Delete)):
             if isinstance(st, ast.FunctionDef):
-                env[st.name] = App('localfunc:' + st.name)
+                env[st.name] = LocalFunc(st, env, fr.fi)
             return True
         if isinstance(st, ast.Continue):
             if fr.loops:
@@ -1541,6 +1551,34 @@ class Evaluator:
             if f.name in self.hooks:
                 return self.hooks[f.name](self, args, kwargs)
             return self.construct(f.ci, args, kwargs, fr.depth)
+        if isinstance(f, LocalFunc):
+            a = f.node.args
+            names = [x.arg for x in a.posonlyargs + a.args]
+            if a.vararg or a.kwarg or a.kwonlyargs or len(args) > len(names) or fr.depth > MAX_DEPTH:
+                return Unknown(f'call of local function {f.node.name} not modelled')
+            e2 = dict(f.env)
+            defaults = [None] * (len(names) - len(a.defaults)) + list(a.defaults)
+            for i, nm in enumerate(names):
+                if i < len(args):
+                    e2[nm] = args[i]
+                elif nm in kwargs:
+                    e2[nm] = kwargs[nm]
+                elif defaults[i] is not None:
+                    e2[nm] = self.expr(defaults[i], f.env, fr)
+                else:
+                    return Unknown(f'missing argument {nm} of local function {f.node.name}')
+            fr2 = Frame(f.fi, fr.self_obj, fr.depth + 1)
+            pc2 = []
+            self._stack.append((fr2, pc2))
+            try:
+                fell = self.block(f.node.body, e2, pc2, fr2)
+            finally:
+                self._stack.pop()
+            if fell:
+                fr2.returns.append((list(pc2), Const(None)))
+            out = Outcome(fr2.returns, fr2.raises, e2)
+            out.fell_through = fell
+            return self.gated_return(out)
         if isinstance(f, ExtRef):
             if f.name.split('.')[-1] in ('Quantity', 'Angle') and node is not None and getattr(node, 'args', None):
                 a0 = node.args[0]
